@@ -248,6 +248,11 @@ trait Mirror: Parser + Clone + PartialEq + std::fmt::Debug {
     fn fields(&self) -> Vec<(String, String)>;
     fn defaulted_paths() -> &'static [&'static str];
     fn from_matches(m: &ArgMatches) -> Result<Self, String>;
+    /// (variant tag, path of a required field of that variant): an update that names the variant the value
+    /// already holds may leave these out
+    fn required_of_variant() -> &'static [(&'static str, &'static str)] {
+        &[]
+    }
 }
 
 fn one<T: Clone + Send + Sync + 'static>(m: &ArgMatches, id: &str) -> Result<Option<T>, String> {
@@ -455,6 +460,9 @@ impl Mirror for Tree {
     }
     fn defaulted_paths() -> &'static [&'static str] {
         &["common.dry", "cmd.add.force", "cmd.remove.recursive"]
+    }
+    fn required_of_variant() -> &'static [(&'static str, &'static str)] {
+        &[("add", "cmd.add.name"), ("remove", "cmd.remove.target")]
     }
     fn from_matches(m: &ArgMatches) -> Result<Self, String> {
         let (name, sm) = m.subcommand().ok_or("no subcommand")?;
@@ -966,7 +974,14 @@ fn gen_ops<T: Mirror>(rng: &mut Rng, ty: u8) -> (Vec<String>, Vec<DOp>) {
                     let v = gen_tree_val(rng);
                     let top = rng.coin();
                     let sub = rng.chance(2, 3) && !matches!(v.cmd, Cmd::Ext(_));
-                    tree_tokens(&v, top, sub)
+                    let (mut a, mut n) = tree_tokens(&v, top, sub);
+                    // a partial update of a struct-like / tuple variant: only its optional fields are named (it
+                    // succeeds exactly when the value already holds that variant)
+                    if sub && rng.chance(1, 3) {
+                        a.retain(|t| !t.starts_with("--name=") && !t.starts_with("--target="));
+                        n.retain(|(p, _)| p != "cmd.add.name" && p != "cmd.remove.target");
+                    }
+                    (a, n)
                 }),
                 Box::new(|rng: &mut Rng| {
                     let v = gen_tree_val(rng);
@@ -1180,6 +1195,18 @@ fn exec_ty<T: Mirror>(name: &str, sc: &DeriveSc, log: &mut Log, out: &mut Outcom
                         out.count_dyn(format!("op.update_err_{:?}", e.kind()));
                         ev!(log, "{i} update {:?} -> Err({:?})", argv, e.kind());
                         let _ = snapshot;
+                        if !*injected_fault {
+                            // an update that names only optional fields of the variant the value already holds
+                            // must not be rejected for the variant's required fields
+                            for (variant, req) in T::required_of_variant() {
+                                let names_variant = named.iter().any(|(n, x)| n == "cmd.variant" && x == variant);
+                                let holds_variant = before.iter().any(|(n, x)| n == "cmd.variant" && x == variant);
+                                if names_variant && holds_variant && !named.iter().any(|(n, _)| n == req) && e.kind() == clap::error::ErrorKind::MissingRequiredArgument {
+                                    out.violate("partial-update-rejected", variant.to_string(), format!("op {i}: update {:?} names only optional fields of the `{variant}` variant the value already holds, but fails with {:?}", argv, e.kind()));
+                                    return;
+                                }
+                            }
+                        }
                         if !*injected_fault {
                             // a FAILED update may have applied some of the named assignments, but no field may end up
                             // with a value that is neither its old one nor the one the tokens name
